@@ -63,8 +63,8 @@ func makePlan(c *vkit.Ctx) (*plan, error) {
 	if err != nil {
 		return nil, err
 	}
-	pl := &plan{bases: fixed, nFixed: len(fixed), nRandom: c.N(150, 2000)}
-	for i := 0; i < c.N(8, 40); i++ {
+	pl := &plan{bases: fixed, nFixed: len(fixed), nRandom: c.N(150, 5000)}
+	for i := 0; i < c.N(8, 120); i++ {
 		rc := GenRandomConfig(c.Rand("randbase", i))
 		b, err := parseBase(fmt.Sprintf("R%d", i), rc.Text)
 		if err != nil {
